@@ -6,6 +6,9 @@ CONSTANTS
     Design = "temp"
     Policy = "trust"
     RenameAt = "written"
+    Recover = FALSE
+    Forwards = TRUE
+    MaxDrop = 0
     LossyNames = FALSE
     Memo = FALSE
     MaxClear = 0
